@@ -9,6 +9,7 @@ def generate() -> dict[str, str]:
     from exabgp.bgp.message.message import Message
     from exabgp.bgp.message.open.capability.extended import ExtendedMessage
     from exabgp.reactor.network import connection
+    import exabgp.reactor.protocol  # noqa: F401  (imports every message class the reactor registers)
 
     src = inspect.getsource(Message)
     tree = ast.parse(textwrap.dedent(src))
